@@ -2,17 +2,17 @@
 """Regenerates MANIFEST.json from the table below (kept as a script so the manifest stays consistent)."""
 import json
 E1 = {
- "C01": ("resolve", "every accepted operation resolves exactly once with its own ack; reset empties everything"),
+ "C01": ("resolve", "every accepted operation resolves exactly once with its own ack; reset empties everything; the thorough tier also judges this on every other family's configurations (neighbour sweep)"),
  "C04": ("qos-delivery", "QoS1/2 delivery automaton on the decoded wire across reconnects/sessions"),
  "C05": ("inbound", "inbound publishes acked in order, QoS2 surfaced once"),
  "C06": ("packet-ids", "packet ids non-zero, unique in flight, never leaked (allocator preset at the wrap)"),
- "C07": ("handshake", "one faithful CONNECT first, nothing before CONNACK / after DISCONNECT; plus an exhaustive CONNACK-presence x connect-options grid through the crate's settings merge against a reference merge"),
+ "C07": ("handshake", "one faithful CONNECT first, nothing before CONNACK / after DISCONNECT; plus an exhaustive CONNACK-presence x connect-options grid through the crate's settings merge against a reference merge; plus a client-layer part (E2: the real MqttClientImpl in the loop mirror, what the application is told about each handshake, user calls at any moment of it)"),
  "C08": ("service-time", "no lost wake-up, bounded progress from every state, no idle spin"),
  "C09": ("flow-control", "receive maximum and one-at-a-time drain never exceeded"),
  "C10": ("ordering", "submission order, retransmissions first (incl. Receive Maximum shrinking on the resumed connection); plus the in-place queue sort over every physical ring-buffer layout up to capacity 9/17"),
- "C11": ("robustness", "hostile server / odd timing gives clean errors, never a panic; compliant server never accused"),
+ "C11": ("robustness", "hostile server / odd timing gives clean errors, never a panic; compliant server never accused; the thorough tier also judges this on every other family's configurations; in every check a library call that does not return within 90 s is reported as a C11 violation by a watchdog"),
  "C14": ("keepalive", "keep-alive gaps and ping deadlines on the virtual clock"),
- "C15": ("offline", "offline-queue policy table in both directions"),
+ "C15": ("offline", "offline-queue policy table in both directions; plus a client-layer part (E2: start / stop / stop+DISCONNECT around submitted publishes under all four policies on the real MqttClientImpl: an operation the policy keeps fails only because of close())"),
  "C17": ("alias", "reference server-side alias table over the decoded stream; inbound alias resolution"),
  "C18": ("timeouts", "ack-timeout deadlines and interrupted-retry limit"),
 }
